@@ -7,7 +7,7 @@ ok_tests = "340 passed" in trial.get("tests", "")
 ok_demo = trial.get("demo_without") == 0 and trial.get("demo_with") not in (0, None)
 if not (ok_tests and ok_demo):
     print("NOT CONFIRMED", pid, k, trial.get("tests"), trial.get("demo_without"), trial.get("demo_with")); sys.exit(1)
-dst = "/verif/seeded/%s_m%s" % (pid, k)
+dst = "/verif/seeded/%s_%sm%s" % (pid, os.environ.get("SEED_ROUND", ""), k)
 os.makedirs(dst, exist_ok=True)
 shutil.copy(os.path.join(sdir, "m%s.diff" % k), dst + "/patch.diff")
 shutil.copy(os.path.join(sdir, "m%s_demo.py" % k), dst + "/demo.py")
